@@ -46,6 +46,9 @@ typedef struct {
     uint64_t tracehash;
     int obslen;
     char obs[1024];
+    int nstat;
+    char statname[12][32];
+    int64_t statval[12];
     abtmc_cp cp[ABTMC_MAXCP];
 } abtmc_xrec;
 
